@@ -55,7 +55,7 @@ Lemma max_need_pos l : 1 <= max_need l.
 Proof. induction l as [|s r IH]; [cbn; lia|rewrite max_need_cons; lia]. Qed.
 Lemma sneed_pos s : 1 <= sneed s.
 Proof.
-  destruct s as [e|i e|e|c t e|c t|c b| |]; try (cbn [sneed]; apply need_pos); try (cbn [sneed]; lia).
+  destruct s as [e|i e|i o e|i up|e|c t e|c t|c b| |]; try (cbn [sneed]; apply need_pos); try (cbn [sneed]; lia).
   - rewrite sneed_SIf. pose proof (need_pos c). lia.
   - rewrite sneed_SIf1. pose proof (need_pos c). lia.
   - rewrite sneed_SWhile. pose proof (need_pos c). lia.
@@ -172,9 +172,13 @@ Qed.
 Lemma run_stmt_length : forall n, length_ok n.
 Proof.
   induction n as [|n IH]; intros rho s top lp r Hwf Hr; [discriminate|].
-  destruct s as [e|i e|e|c t e|c t|c b| |].
+  destruct s as [e|i e|i o e|i up|e|c t e|c t|c b| |].
   - cbn [run_stmt] in Hr. destruct (sev rho e); inversion Hr; cbn [len_ok next_k]; [rewrite app_length; cbn; lia|exact Logic.I].
   - cbn [run_stmt] in Hr. destruct (sev rho e); inversion Hr; cbn [len_ok next_k]; [apply set_nth_length|exact Logic.I].
+  - cbn [run_stmt] in Hr. destruct (sev rho e); [|inversion Hr; exact Logic.I].
+    destruct (sbin o (nth i rho VNil) s); inversion Hr; cbn [len_ok next_k]; [apply set_nth_length|exact Logic.I].
+  - cbn [run_stmt] in Hr. destruct (sbin BAdd (nth i rho VNil) (VInt (if up then 1%Z else (-1)%Z))); inversion Hr; cbn [len_ok next_k];
+      [apply set_nth_length|exact Logic.I].
   - cbn [run_stmt] in Hr. destruct (sev rho e); inversion Hr; cbn [len_ok next_k]; [reflexivity|exact Logic.I].
   - rewrite wf_SIf in Hwf. apply andb_true_iff in Hwf. destruct Hwf as [Hwct Hwe].
     apply andb_true_iff in Hwct. destruct Hwct as [Hwc Hwt].
@@ -214,9 +218,11 @@ Proof. apply run_list_length. apply run_stmt_length. Qed.
 Lemma run_stmt_value : forall n rho s rho' v, run_stmt n rho s = Some (inl (rho', v)) -> is_expr_stmt s = false -> v = VNil.
 Proof.
   induction n as [|n IH]; intros rho s rho' v Hr Hx; [discriminate|].
-  destruct s as [e|i e|e|c t e|c t|c b| |]; try discriminate.
+  destruct s as [e|i e|i o e|i up|e|c t e|c t|c b| |]; try discriminate.
   - cbn [run_stmt] in Hr. destruct (sev rho e); inversion Hr. reflexivity.
   - cbn [run_stmt] in Hr. destruct (sev rho e); inversion Hr. reflexivity.
+  - cbn [run_stmt] in Hr. destruct (sev rho e); [|discriminate]. destruct (sbin o (nth i rho VNil) s); inversion Hr. reflexivity.
+  - cbn [run_stmt] in Hr. destruct (sbin BAdd (nth i rho VNil) (VInt (if up then 1%Z else (-1)%Z))); inversion Hr. reflexivity.
   - rewrite run_SWhile in Hr. destruct (sev rho c) as [vc|x]; [|discriminate].
     destruct (struthy vc); [|inversion Hr; reflexivity].
     destruct (run_stmts n rho b VNil) as [[[rho1 v1]|[x|rho1|rho1]]|]; try discriminate.
@@ -240,9 +246,11 @@ Proof.
       + pose proof (run_stmt_length n rho0 s0 false false _ Hs E) as Hl. cbn [len_ok] in Hl.
         rewrite (wf_false_next _ _ _ Hs) in Hl, Hw. rewrite <- Hl in Hw. exact (IHl rho1 v1 r0 Hw H0).
       + inversion H0; subst r0. exact (IH rho0 s0 false _ Hs E). }
-  destruct s as [e|i e|e|c t e|c t|c b| |].
+  destruct s as [e|i e|i o e|i up|e|c t e|c t|c b| |].
   - cbn [run_stmt] in Hr. destruct (sev rho e); inversion Hr; exact Logic.I.
   - cbn [run_stmt] in Hr. destruct (sev rho e); inversion Hr; exact Logic.I.
+  - cbn [run_stmt] in Hr. destruct (sev rho e); [|inversion Hr; exact Logic.I]. destruct (sbin o (nth i rho VNil) s); inversion Hr; exact Logic.I.
+  - cbn [run_stmt] in Hr. destruct (sbin BAdd (nth i rho VNil) (VInt (if up then 1%Z else (-1)%Z))); inversion Hr; exact Logic.I.
   - cbn [run_stmt] in Hr. destruct (sev rho e); inversion Hr; exact Logic.I.
   - rewrite wf_SIf in Hwf. apply andb_true_iff in Hwf. destruct Hwf as [Hwct Hwe].
     apply andb_true_iff in Hwct. destruct Hwct as [Hwc Hwt].
